@@ -43,4 +43,561 @@ theorem elapsedTimes_replicate_dealt (n : Nat) (d h : Rat) : elapsedTimes (List.
   | zero => rfl
   | succ n ih => simp [List.replicate_succ, ih]
 
+theorem elapsedTimes_row (ds hs : List Rat) : elapsedTimes (HowlingGale.row ds hs) = [] := by
+  unfold HowlingGale.row
+  induction ds.zip hs with
+  | nil => rfl
+  | cons x r ih => simp [ih]
+theorem elapsedTimes_rows (n : Nat) (ds hs : List Rat) :
+    elapsedTimes (List.replicate n (HowlingGale.row ds hs)).flatten = [] := by
+  induction n with
+  | zero => rfl
+  | succ n ih => simp [List.replicate_succ, elapsedTimes_append, elapsedTimes_row, ih]
+
+/-! ### tick counts of a periodic add up as naturals -/
+theorem periodic_ticks_add (s : Periodic) (a b : Int) (hw : s.WF) (ha : 0 ≤ a) (hb : 0 ≤ b) :
+    (s.elapseCount (a + b)).toNat = (s.elapseCount a).toNat + ((s.elapse a).elapseCount b).toNat := by
+  have h := Periodic.elapseCount_add s a b hw ha hb
+  have h1 := Periodic.elapseCount_nonneg s a
+  have h2 := Periodic.elapseCount_nonneg (s.elapse a) b
+  omega
+
+/-- an expired periodic ticks no more -/
+theorem periodic_expired_count (s : Periodic) (t : Int) (h : s.timeLeft ≤ 0) : s.elapseCount t = 0 := by
+  unfold Periodic.elapseCount; rw [Periodic.elapse_expired s t h]; omega
+
+/-- `time_left` of a periodic is positive after an elapse only if it was before -/
+theorem periodic_enabled_after (s : Periodic) (t : Int) (h : 0 < (s.elapse t).timeLeft) : 0 < s.timeLeft := by
+  by_cases h0 : s.timeLeft ≤ 0
+  · rw [Periodic.elapse_expired s t h0] at h; exact h
+  · omega
+
+/-! ### key-down: `resolving` only shifts the timer; shape of the answer of `elapse_keydown_trait` -/
+theorem resolveLoop_timeLeft (n : Nat) : ∀ (rtl : Int) (s : Keydown) (k : Nat),
+    (Keydown.resolveLoop n rtl s k).1.timeLeft = s.timeLeft := by
+  induction n with
+  | zero => intro rtl s k; rfl
+  | succ n ih =>
+    intro rtl s k
+    simp only [Keydown.resolveLoop]
+    split
+    · rw [ih]
+    · rfl
+
+theorem resolving_timeLeft (s : Keydown) (t : Int) : (s.resolving t).1.timeLeft = s.timeLeft - t := by
+  unfold Keydown.resolving
+  simp only []
+  rw [resolveLoop_timeLeft]
+
+theorem keydown_elapse_fst (p : KeydownSkill.P) (t : Int) (s : KeydownSkill.S) :
+    (KeydownSkill.elapse p t s).1 = { cooldown := s.cooldown.elapse t, keydown := (s.keydown.resolving t).1 } := by
+  unfold KeydownSkill.elapse
+  simp only []
+  split <;> rfl
+
+theorem keydown_elapse_damages (p : KeydownSkill.P) (t : Int) (s : KeydownSkill.S) :
+    damages (KeydownSkill.elapse p t s).2 =
+      List.replicate (s.keydown.resolving t).2 (.dealt p.damage p.hit) ++
+        (if (s.keydown.running && !(s.keydown.resolving t).1.running) = true then [REv.dealt p.finishDamage p.finishHit] else []) := by
+  unfold KeydownSkill.elapse
+  simp only []
+  split
+  · rename_i h; simp [damages_replicate_dealt]
+  · rename_i h; simp [damages_replicate_dealt]
+
+/-! ### HowlingGale: the tick row in force -/
 end Simaple.Comp.Wind
+
+namespace Simaple.Comp
+open Simaple.Entity
+
+namespace CosmicShower
+/-- equivalent states: equal up to the dead tick counter of an expired scheduler (`Periodic.Equiv`) -/
+def Equiv (x y : S) : Prop := x.cooldown = y.cooldown ∧ Periodic.Equiv x.periodic y.periodic ∧ x.orb = y.orb
+end CosmicShower
+
+namespace Cosmos
+def Equiv (x y : S) : Prop := x.cooldown = y.cooldown ∧ Periodic.Equiv x.periodic y.periodic ∧ x.orb = y.orb
+end Cosmos
+
+namespace HowlingGale
+def Equiv (x y : S) : Prop :=
+  x.consumable = y.consumable ∧ x.consumed = y.consumed ∧ Periodic.Equiv x.periodic y.periodic
+
+/-- the row of damage events one tick deals in state `s` (`[]` where the Python lookup would raise) -/
+def rowOf (p : P) (s : S) : List REv :=
+  match Wind.pyIndex p.periodicDamage (s.consumed.getValue - 1), Wind.pyIndex p.periodicHit (s.consumed.getValue - 1) with
+  | some ds, some hs => row ds hs
+  | _, _ => []
+
+/-- the state after `elapse`, whatever the events -/
+def after (t : Int) (s : S) : S := { s with consumable := s.consumable.elapse t, periodic := s.periodic.elapse t }
+
+theorem elapse_ok_form (p : P) (t : Int) (s : S) (r : S × List REv) (hr : elapse p t s = .ok r) :
+    r = (after t s, .elapsed t :: (List.replicate (s.periodic.elapseCount t).toNat (rowOf p s)).flatten) := by
+  unfold elapse at hr
+  simp only [] at hr
+  have e1 : (s.periodic.elapse' t).1 = s.periodic.elapse t := rfl
+  have e2 : (s.periodic.elapse' t).2 = s.periodic.elapseCount t := rfl
+  by_cases h0 : (s.periodic.elapse' t).2.toNat = 0
+  · rw [if_pos h0] at hr
+    simp at hr; rw [← hr, ← e2, h0]; rfl
+  · rw [if_neg h0] at hr
+    unfold rowOf
+    cases hd : Wind.pyIndex p.periodicDamage (s.consumed.getValue - 1) with
+    | none => simp [hd] at hr
+    | some ds =>
+      cases hh : Wind.pyIndex p.periodicHit (s.consumed.getValue - 1) with
+      | none => simp [hd, hh] at hr
+      | some hs => simp [hd, hh] at hr; rw [← hr]; rfl
+
+theorem rowOf_damage (p : P) (s : S) : ∀ e ∈ rowOf p s, Wind.isDamage e = true := by
+  intro e he
+  unfold rowOf at he
+  split at he
+  · simp only [row, List.mem_map] at he
+    obtain ⟨x, _, hx⟩ := he
+    rw [← hx]; rfl
+  · simp at he
+
+theorem damages_rows (p : P) (s : S) (n : Nat) :
+    Wind.damages (List.replicate n (rowOf p s)).flatten = (List.replicate n (rowOf p s)).flatten := by
+  unfold Wind.damages
+  rw [List.filter_eq_self]
+  intro e he
+  simp only [List.mem_flatten, List.mem_replicate] at he
+  obtain ⟨l, ⟨_, hl⟩, hel⟩ := he
+  subst hl
+  exact rowOf_damage p s e hel
+
+theorem rows_add (R : List REv) (m n : Nat) :
+    (List.replicate (m + n) R).flatten = (List.replicate m R).flatten ++ (List.replicate n R).flatten := by
+  rw [← List.replicate_append_replicate, List.flatten_append]
+end HowlingGale
+
+
+/-! ### C09: chunk independence, equivalence and invariant preservation per class -/
+namespace Wind
+theorem setTimeLeft_wf (per per' : Periodic) (T : Int) (hw : per.WF)
+    (hc : ∀ c, per.initialCounter = some c → 0 < c) (h : per.setTimeLeft T = .ok per') : per'.WF := by
+  unfold Periodic.setTimeLeft at h
+  split at h
+  · cases h
+  · cases hi : per.initialCounter with
+    | none => simp only [hi] at h; cases h; exact ⟨hw.1, hw.1⟩
+    | some c0 =>
+      simp only [hi] at h
+      split at h
+      · cases h
+      · cases h; exact ⟨hw.1, hc c0 hi⟩
+end Wind
+
+namespace KarmaBlade
+/-- closed form of `elapse` -/
+theorem elapse_form (p : P) (t : Int) (c k m d T : Int) :
+    elapse p t ⟨⟨c⟩, ⟨k, m, d, T⟩⟩ =
+      if 0 < T ∧ T - t ≤ 0 then (⟨⟨c - t⟩, ⟨0, m, d, 0⟩⟩, [.dealt p.finishDamage p.finishHit])
+      else if T - t < 0 then (⟨⟨c - t⟩, ⟨0, m, d, 0⟩⟩, [])
+      else (⟨⟨c - t⟩, ⟨k, m, d, T - t⟩⟩, []) := by
+  by_cases h1 : 0 < T
+  · by_cases h2 : T - t < 0
+    · have h3 : T - t ≤ 0 := by omega
+      simp only [elapse, LastingStack.enabled, LastingStack.elapse, LastingStack.reset, Cooldown.elapse, h1, h2, h3,
+        decide_true, if_true, Int.lt_irrefl, decide_false, Bool.not_false, Bool.and_self, and_self]
+    · by_cases h3 : T - t ≤ 0
+      · have h4 : ¬ 0 < T - t := by omega
+        simp only [elapse, LastingStack.enabled, LastingStack.elapse, LastingStack.reset, Cooldown.elapse, h1, h2, h3, h4,
+          decide_true, if_true, if_false, decide_false, Bool.not_false, Bool.and_self, and_self]
+      · have h4 : 0 < T - t := by omega
+        simp only [elapse, LastingStack.enabled, LastingStack.elapse, LastingStack.reset, Cooldown.elapse, h1, h2, h3, h4,
+          decide_true, if_true, if_false, decide_false, Bool.not_true, Bool.and_false, and_false, Bool.false_eq_true]
+  · by_cases h2 : T - t < 0
+    · simp only [elapse, LastingStack.enabled, LastingStack.elapse, LastingStack.reset, Cooldown.elapse, h1, h2,
+        decide_true, if_true, if_false, decide_false, Bool.false_and, false_and, Bool.false_eq_true]
+    · simp only [elapse, LastingStack.enabled, LastingStack.elapse, LastingStack.reset, Cooldown.elapse, h1, h2,
+        decide_true, if_true, if_false, decide_false, Bool.false_and, false_and, Bool.false_eq_true]
+
+theorem chunk (p : P) (s : S) (a b : Int) (ha : 0 ≤ a) (hb : 0 ≤ b) :
+    Wind.damages (elapse p (a + b) s).2 = Wind.damages (elapse p a s).2 ++ Wind.damages (elapse p b (elapse p a s).1).2 ∧
+    (elapse p b (elapse p a s).1).1 = (elapse p (a + b) s).1 := by
+  obtain ⟨⟨c⟩, ⟨k, m, d, T⟩⟩ := s
+  have e : c - a - b = c - (a + b) := by omega
+  have e2 : T - a - b = T - (a + b) := by omega
+  rw [elapse_form p a, elapse_form p (a + b)]
+  by_cases h1 : 0 < T ∧ T - a ≤ 0
+  · have h2 : 0 < T ∧ T - (a + b) ≤ 0 := ⟨h1.1, by omega⟩
+    rw [if_pos h1, if_pos h2]
+    simp only []
+    rw [elapse_form p b]
+    rw [if_neg (by omega), e]
+    by_cases h3 : (0:Int) - b < 0
+    · rw [if_pos h3]; exact ⟨rfl, rfl⟩
+    · rw [if_neg h3]
+      have : b = 0 := by omega
+      subst this
+      exact ⟨rfl, rfl⟩
+  · rw [if_neg h1]
+    by_cases h2 : T - a < 0
+    · rw [if_pos h2]
+      have h3 : ¬ (0 < T ∧ T - (a + b) ≤ 0) := by omega
+      rw [if_neg h3, if_pos (by omega)]
+      simp only []
+      rw [elapse_form p b, if_neg (by omega), e]
+      by_cases h4 : (0:Int) - b < 0
+      · rw [if_pos h4]; exact ⟨rfl, rfl⟩
+      · rw [if_neg h4]
+        have : b = 0 := by omega
+        subst this
+        exact ⟨rfl, rfl⟩
+    · rw [if_neg h2]
+      simp only []
+      rw [elapse_form p b, e, e2]
+      by_cases h3 : 0 < T ∧ T - (a + b) ≤ 0
+      · have h4 : 0 < T - a ∧ T - (a + b) ≤ 0 := by omega
+        rw [if_pos h3, if_pos h4]; exact ⟨rfl, rfl⟩
+      · have h4 : ¬ (0 < T - a ∧ T - (a + b) ≤ 0) := by omega
+        rw [if_neg h3, if_neg h4]
+        by_cases h5 : T - (a + b) < 0
+        · rw [if_pos h5]; exact ⟨rfl, rfl⟩
+        · rw [if_neg h5]; exact ⟨rfl, rfl⟩
+end KarmaBlade
+
+namespace BladeStorm
+
+theorem inv_iff (s : S) : Inv s ↔ s.keydown.Inv := Iff.rfl
+
+theorem chunk (p : P) (s : S) (a b : Int) (ha : 0 ≤ a) (hb : 0 ≤ b) (hi : Inv s) :
+    (Wind.damages (elapse p (a + b) s).2).Perm
+      (Wind.damages (elapse p a s).2 ++ Wind.damages (elapse p b (elapse p a s).1).2) ∧
+    (elapse p b (elapse p a s).1).1 = (elapse p (a + b) s).1 := by
+  have hadd := Keydown.resolving_add s.keydown a b hi ha hb
+  unfold elapse
+  constructor
+  · rw [Wind.keydown_elapse_damages, Wind.keydown_elapse_damages, Wind.keydown_elapse_damages, Wind.keydown_elapse_fst]
+    simp only []
+    rw [hadd.2, ← List.replicate_append_replicate]
+    have t1 := Wind.resolving_timeLeft s.keydown a
+    have t2 := Wind.resolving_timeLeft (s.keydown.resolving a).1 b
+    have t3 := Wind.resolving_timeLeft s.keydown (a + b)
+    generalize List.replicate (s.keydown.resolving a).2 (REv.dealt (kd p).damage (kd p).hit) = R1
+    generalize List.replicate ((s.keydown.resolving a).1.resolving b).2 (REv.dealt (kd p).damage (kd p).hit) = R2
+    simp only [Keydown.running, t1, t2, t3]
+    by_cases h0 : 0 < s.keydown.timeLeft
+    · by_cases h1 : 0 < s.keydown.timeLeft - a
+      · by_cases h2 : 0 < s.keydown.timeLeft - (a + b)
+        · have h2' : 0 < s.keydown.timeLeft - a - b := by omega
+          simp only [h0, h1, h2, h2', decide_true, decide_false, Bool.not_false, Bool.not_true, Bool.and_self, Bool.and_false,
+            if_true, Bool.false_and, Bool.false_eq_true, if_false, List.append_nil, List.append_assoc]
+          exact List.Perm.refl _
+        · have h2' : ¬ 0 < s.keydown.timeLeft - a - b := by omega
+          simp only [h0, h1, h2, h2', decide_true, decide_false, Bool.not_false, Bool.not_true, Bool.and_self, Bool.and_false,
+            if_true, Bool.false_and, Bool.false_eq_true, if_false, List.append_nil, List.append_assoc]
+          exact List.Perm.refl _
+      · have h2 : ¬ 0 < s.keydown.timeLeft - (a + b) := by omega
+        have h2' : ¬ 0 < s.keydown.timeLeft - a - b := by omega
+        simp only [h0, h1, h2, h2', decide_true, decide_false, Bool.not_false, Bool.and_self, if_true, Bool.false_and,
+          Bool.false_eq_true, if_false, List.append_nil, List.append_assoc]
+        exact List.Perm.append_left R1 List.perm_append_comm
+    · have h1 : ¬ 0 < s.keydown.timeLeft - a := by omega
+      have h2 : ¬ 0 < s.keydown.timeLeft - (a + b) := by omega
+      simp only [h0, h1, decide_false, Bool.false_and, Bool.false_eq_true, if_false, List.append_nil, List.append_assoc]
+      exact List.Perm.refl _
+  · rw [Wind.keydown_elapse_fst, Wind.keydown_elapse_fst, Wind.keydown_elapse_fst]
+    simp only [Cooldown.elapse_add, hadd.1]
+
+theorem inv_preserved (p : P) (s : S) (t : Int) (hp : 0 ≤ p.prepareDelay) (hi : Inv s) :
+    Inv (elapse p t s).1 ∧ Inv (use p s).1 ∧ Inv (stop p s).1 := by
+  refine ⟨?_, ?_, ?_⟩
+  · unfold elapse; rw [Wind.keydown_elapse_fst]
+    exact Keydown.resolving_inv s.keydown t hi
+  · unfold use KeydownSkill.use
+    by_cases hc : (!s.cooldown.available || s.keydown.running) = true
+    · simp only [hc, if_true, rejectedIn, List.any_cons, List.any_nil, REv.isReject, Bool.or_false, Bool.not_true,
+        Bool.false_eq_true, if_false]
+      exact hi
+    · simp only [hc, if_false, rejectedIn, List.any_cons, List.any_nil, REv.isReject, Bool.or_false, Bool.not_false, if_true]
+      exact ⟨hi.1, Or.inl hp⟩
+  · unfold stop KeydownSkill.stop
+    split
+    · exact hi
+    · rename_i hr
+      simp only [Bool.not_eq_true', Bool.not_eq_false, Keydown.running, decide_eq_true_eq] at hr
+      refine ⟨hi.1, ?_⟩
+      have := hi.2
+      simp only [Keydown.stop]
+      omega
+end BladeStorm
+
+namespace CosmicShower
+
+theorem chunk (p : P) (s : S) (a b : Int) (ha : 0 ≤ a) (hb : 0 ≤ b) (hi : Inv s) :
+    Wind.damages (elapse p (a + b) s).2 =
+      Wind.damages (elapse p a s).2 ++ Wind.damages (elapse p b (elapse p a s).1).2 ∧
+    Equiv (elapse p b (elapse p a s).1).1 (elapse p (a + b) s).1 := by
+  constructor
+  · simp only [elapse, Periodic.elapse', Wind.damages_elapsed, Wind.damages_replicate_dealt]
+    rw [Wind.periodic_ticks_add s.periodic a b hi ha hb, List.replicate_append_replicate]
+  · simp only [elapse, Periodic.elapse']
+    exact ⟨Cooldown.elapse_add _ _ _, Periodic.elapse_add' s.periodic a b hi ha hb, rfl⟩
+
+theorem equiv_views_use (p : P) (x y : S) (h : Equiv x y) :
+    validity p x = validity p y ∧ running p x = running p y ∧
+    (∀ rx, use p x = .ok rx → ∃ ry, use p y = .ok ry ∧ rx.2 = ry.2 ∧ Equiv rx.1 ry.1) ∧
+    (∀ e, use p x = .error e → use p y = .error e) := by
+  obtain ⟨⟨c⟩, px, o⟩ := x
+  obtain ⟨⟨c'⟩, py, o'⟩ := y
+  obtain ⟨hc, hp, ho⟩ := h
+  simp only at hc ho hp
+  subst ho
+  cases hc
+  have hs := hp.setTimeLeft (p.lastingDuration + o.stack * p.durationIncreasePerOrb)
+  refine ⟨rfl, ?_, ?_, ?_⟩
+  · simp only [running, hp.timeLeft]
+  · intro rx hrx
+    unfold use at hrx ⊢
+    by_cases hcnd : (!(Cooldown.mk c).available || o.stack == 0) = true
+    · simp only [hcnd, if_true] at hrx ⊢
+      cases hrx
+      exact ⟨_, rfl, rfl, rfl, hp, rfl⟩
+    · simp only [hcnd, if_false] at hrx ⊢
+      simp only [Bool.false_eq_true, if_false] at hrx ⊢
+      rw [← hs]
+      cases hq : px.setTimeLeft (p.lastingDuration + o.stack * p.durationIncreasePerOrb) with
+      | error e => simp [hq] at hrx
+      | ok per =>
+        simp only [hq] at hrx ⊢
+        cases hrx
+        exact ⟨_, rfl, rfl, rfl, Periodic.Equiv.refl _, rfl⟩
+  · intro e he
+    unfold use at he ⊢
+    by_cases hcnd : (!(Cooldown.mk c).available || o.stack == 0) = true
+    · simp only [hcnd, if_true] at he; cases he
+    · simp only [hcnd, if_false, Bool.false_eq_true] at he ⊢
+      rw [← hs]; exact he
+
+theorem equiv_elapse (p : P) (x y : S) (t : Int) (h : Equiv x y) :
+    (elapse p t x).2 = (elapse p t y).2 ∧ Equiv (elapse p t x).1 (elapse p t y).1 := by
+  obtain ⟨hc, hp, ho⟩ := h
+  constructor
+  · simp only [elapse, Periodic.elapse', hp.elapseCount t]
+  · exact ⟨by simp only [elapse, hc], Periodic.elapse_equiv _ _ t hp, ho⟩
+
+theorem inv_preserved (p : P) (s : S) (t : Int) (hi : Inv s)
+    (hc : ∀ c, s.periodic.initialCounter = some c → 0 < c) :
+    Inv (elapse p t s).1 ∧ ∀ r, use p s = .ok r → Inv r.1 := by
+  constructor
+  · exact Periodic.elapse_wf _ _ hi
+  · intro r hr
+    unfold use at hr
+    split at hr
+    · cases hr; exact hi
+    · simp only at hr
+      split at hr
+      · cases hr
+      · rename_i per hper
+        cases hr
+        exact Wind.setTimeLeft_wf _ _ _ hi hc hper
+end CosmicShower
+
+
+namespace Cosmos
+theorem chunk (p : P) (s : S) (a b : Int) (ha : 0 ≤ a) (hb : 0 ≤ b) (hi : Inv s) :
+    Wind.damages (elapse p (a + b) s).2 =
+      Wind.damages (elapse p a s).2 ++ Wind.damages (elapse p b (elapse p a s).1).2 ∧
+    Equiv (elapse p b (elapse p a s).1).1 (elapse p (a + b) s).1 := by
+  constructor
+  · simp only [elapse, Periodic.elapse', Wind.damages_elapsed, Wind.damages_replicate_dealt]
+    rw [Wind.periodic_ticks_add s.periodic a b hi ha hb, List.replicate_append_replicate]
+  · simp only [elapse, Periodic.elapse']
+    exact ⟨Cooldown.elapse_add _ _ _, Periodic.elapse_add' s.periodic a b hi ha hb, rfl⟩
+
+theorem equiv_views_use (p : P) (x y : S) (h : Equiv x y) :
+    validity p x = validity p y ∧ running p x = running p y ∧
+    (∀ rx, use p x = .ok rx → ∃ ry, use p y = .ok ry ∧ rx.2 = ry.2 ∧ Equiv rx.1 ry.1) ∧
+    (∀ e, use p x = .error e → use p y = .error e) := by
+  obtain ⟨⟨c⟩, px, o⟩ := x
+  obtain ⟨⟨c'⟩, py, o'⟩ := y
+  obtain ⟨hc, hp, ho⟩ := h
+  simp only at hc ho hp
+  subst ho
+  cases hc
+  have hp0 : Periodic.Equiv { px with interval := p.periodicInterval - o.stack * p.periodicIntervalDecrementPerOrb }
+      { py with interval := p.periodicInterval - o.stack * p.periodicIntervalDecrementPerOrb } :=
+    ⟨rfl, hp.2.1, hp.2.2.1, hp.2.2.2.1, hp.2.2.2.2⟩
+  have hs := hp0.setTimeLeft p.lastingDuration
+  refine ⟨rfl, ?_, ?_, ?_⟩
+  · simp only [running, hp.timeLeft]
+  · intro rx hrx
+    unfold use at hrx ⊢
+    by_cases hcnd : (!(Cooldown.mk c).available || o.stack == 0) = true
+    · simp only [hcnd, if_true] at hrx ⊢
+      cases hrx
+      exact ⟨_, rfl, rfl, rfl, hp, rfl⟩
+    · simp only [hcnd, if_false] at hrx ⊢
+      simp only [Bool.false_eq_true, if_false] at hrx ⊢
+      rw [← hs]
+      cases hq : Periodic.setTimeLeft { px with interval := p.periodicInterval - o.stack * p.periodicIntervalDecrementPerOrb }
+          p.lastingDuration with
+      | error e => simp [hq] at hrx
+      | ok per =>
+        simp only [hq] at hrx ⊢
+        cases hrx
+        exact ⟨_, rfl, rfl, rfl, Periodic.Equiv.refl _, rfl⟩
+  · intro e he
+    unfold use at he ⊢
+    by_cases hcnd : (!(Cooldown.mk c).available || o.stack == 0) = true
+    · simp only [hcnd, if_true] at he; cases he
+    · simp only [hcnd, if_false, Bool.false_eq_true] at he ⊢
+      rw [← hs]; exact he
+
+theorem equiv_elapse (p : P) (x y : S) (t : Int) (h : Equiv x y) :
+    (elapse p t x).2 = (elapse p t y).2 ∧ Equiv (elapse p t x).1 (elapse p t y).1 := by
+  obtain ⟨hc, hp, ho⟩ := h
+  constructor
+  · simp only [elapse, Periodic.elapse', hp.elapseCount t]
+  · exact ⟨by simp only [elapse, hc], Periodic.elapse_equiv _ _ t hp, ho⟩
+
+theorem inv_preserved (p : P) (s : S) (t : Int) (hi : Inv s)
+    (hc : ∀ c, s.periodic.initialCounter = some c → 0 < c)
+    (hpos : 0 < p.periodicInterval - s.orb.stack * p.periodicIntervalDecrementPerOrb) :
+    Inv (elapse p t s).1 ∧ ∀ r, use p s = .ok r → Inv r.1 := by
+  constructor
+  · exact Periodic.elapse_wf _ _ hi
+  · intro r hr
+    unfold use at hr
+    split at hr
+    · cases hr; exact hi
+    · simp only at hr
+      split at hr
+      · cases hr
+      · rename_i per hper
+        cases hr
+        exact Wind.setTimeLeft_wf { s.periodic with interval := p.periodicInterval - s.orb.stack * p.periodicIntervalDecrementPerOrb } per _ ⟨hpos, hi.2⟩ hc hper
+end Cosmos
+
+namespace HowlingGale
+theorem rowOf_congr (p : P) (x y : S) (h : x.consumed = y.consumed) : rowOf p x = rowOf p y := by
+  unfold rowOf; rw [h]
+
+theorem pyIndex_some {α : Type} (xs : List α) (i : Int) (h0 : 0 ≤ i) (h1 : i < xs.length) : ∃ v, Wind.pyIndex xs i = some v := by
+  unfold Wind.pyIndex
+  rw [if_pos h0]
+  have : i.toNat < xs.length := by omega
+  exact ⟨xs[i.toNat], by simp [this]⟩
+
+theorem elapse_defined (p : P) (s : S) (t : Int) (hi : Inv p s) : ∃ r, elapse p t s = .ok r := by
+  obtain ⟨hw, _, hlen, hpos, hidx⟩ := hi
+  unfold elapse
+  simp only []
+  by_cases h0 : (s.periodic.elapse' t).2.toNat = 0
+  · rw [if_pos h0]; exact ⟨_, rfl⟩
+  · rw [if_neg h0]
+    have hen : 0 < s.periodic.timeLeft := by
+      by_cases he : s.periodic.timeLeft ≤ 0
+      · have := Wind.periodic_expired_count s.periodic t he
+        have e2 : (s.periodic.elapse' t).2 = s.periodic.elapseCount t := rfl
+        rw [e2, this] at h0; simp at h0
+      · omega
+    have hc := hidx hen
+    obtain ⟨ds, hds⟩ := pyIndex_some p.periodicDamage (s.consumed.getValue - 1) (by simp [Integer.getValue]; omega)
+      (by simp [Integer.getValue]; omega)
+    obtain ⟨hs, hhs⟩ := pyIndex_some p.periodicHit (s.consumed.getValue - 1) (by simp [Integer.getValue]; omega)
+      (by simp [Integer.getValue]; omega)
+    rw [hds, hhs]; exact ⟨_, rfl⟩
+
+theorem chunk (p : P) (s : S) (a b : Int) (ha : 0 ≤ a) (hb : 0 ≤ b)
+    (hi : Inv p s) (r1 r2 r : S × List REv)
+    (h1 : elapse p a s = .ok r1) (h2 : elapse p b r1.1 = .ok r2) (h : elapse p (a + b) s = .ok r) :
+    Wind.damages r.2 = Wind.damages r1.2 ++ Wind.damages r2.2 ∧ Equiv r2.1 r.1 ∧
+    validity p r2.1 = validity p r.1 ∧ running p r2.1 = running p r.1 := by
+  have f1 := elapse_ok_form p a s r1 h1
+  subst f1
+  have f2 := elapse_ok_form p b _ r2 h2
+  subst f2
+  have f := elapse_ok_form p (a + b) s r h
+  subst f
+  have hrow : rowOf p (after a s) = rowOf p s := rowOf_congr p _ _ rfl
+  have hcons := Consumable.elapse_add s.consumable a b hi.2.1 ha hb
+  have hper := Periodic.elapse_add' s.periodic a b hi.1 ha hb
+  refine ⟨?_, ⟨?_, rfl, ?_⟩, ?_, ?_⟩
+  · simp only [Wind.damages_elapsed, hrow, damages_rows]
+    have : (after a s).periodic = s.periodic.elapse a := rfl
+    rw [this, Wind.periodic_ticks_add s.periodic a b hi.1 ha hb, rows_add]
+  · exact hcons
+  · exact hper
+  · simp only [validity, after, hcons]
+  · simp only [running, after, hper.timeLeft]
+
+theorem equiv_indistinguishable (p : P) (x y : S) (t : Int) (h : Equiv x y) :
+    validity p x = validity p y ∧ running p x = running p y ∧
+    (∀ rx, use p x = .ok rx → ∃ ry, use p y = .ok ry ∧ rx.2 = ry.2 ∧ Equiv rx.1 ry.1) ∧
+    (∀ e, use p x = .error e → use p y = .error e) ∧
+    (∀ rx ry, elapse p t x = .ok rx → elapse p t y = .ok ry → rx.2 = ry.2 ∧ Equiv rx.1 ry.1) := by
+  obtain ⟨cx, nx, px⟩ := x
+  obtain ⟨cy, ny, py⟩ := y
+  obtain ⟨hc, hn, hp⟩ := h
+  simp only at hc hn hp
+  subst hc; subst hn
+  have hs := hp.setTimeLeft (lasting p)
+  refine ⟨rfl, ?_, ?_, ?_, ?_⟩
+  · simp only [running, hp.timeLeft]
+  · intro rx hrx
+    unfold use at hrx ⊢
+    by_cases hcnd : (!cx.available) = true
+    · simp only [hcnd, if_true] at hrx ⊢
+      cases hrx
+      exact ⟨_, rfl, rfl, rfl, rfl, hp⟩
+    · simp only [hcnd, if_false] at hrx ⊢
+      simp only [Bool.false_eq_true, if_false] at hrx ⊢
+      rw [← hs]
+      cases hq : px.setTimeLeft (lasting p) with
+      | error e => simp [hq] at hrx
+      | ok per =>
+        simp only [hq] at hrx ⊢
+        cases hrx
+        exact ⟨_, rfl, rfl, rfl, rfl, Periodic.Equiv.refl _⟩
+  · intro e he
+    unfold use at he ⊢
+    by_cases hcnd : (!cx.available) = true
+    · simp only [hcnd, if_true] at he; cases he
+    · simp only [hcnd, if_false, Bool.false_eq_true] at he ⊢
+      rw [← hs]; exact he
+  · intro rx ry hx hy
+    have fx := elapse_ok_form p t _ rx hx
+    have fy := elapse_ok_form p t _ ry hy
+    subst fx; subst fy
+    have hrow : rowOf p ⟨cx, nx, px⟩ = rowOf p ⟨cx, nx, py⟩ := rowOf_congr p _ _ rfl
+    refine ⟨?_, rfl, rfl, Periodic.elapse_equiv _ _ t hp⟩
+    simp only [hrow, hp.elapseCount t]
+
+theorem inv_preserved (p : P) (s : S) (t : Int) (hi : Inv p s)
+    (hc : ∀ c, s.periodic.initialCounter = some c → 0 < c) :
+    (∀ r, elapse p t s = .ok r → Inv p r.1) ∧ (∀ r, use p s = .ok r → Inv p r.1) := by
+  obtain ⟨hw, hcw, hlen, hpos, hidx⟩ := hi
+  constructor
+  · intro r hr
+    have f := elapse_ok_form p t s r hr
+    subst f
+    refine ⟨Periodic.elapse_wf _ _ hw, Consumable.elapse_wf _ _ hcw, hlen, hpos, ?_⟩
+    intro hen
+    exact hidx (Wind.periodic_enabled_after s.periodic t hen)
+  · intro r hr
+    unfold use at hr
+    by_cases hcnd : (!s.consumable.available) = true
+    · simp only [hcnd, if_true] at hr
+      cases hr
+      exact ⟨hw, hcw, hlen, hpos, hidx⟩
+    · simp only [hcnd, if_false, Bool.false_eq_true] at hr
+      cases hq : s.periodic.setTimeLeft (lasting p) with
+      | error e => simp [hq] at hr
+      | ok per =>
+        simp only [hq] at hr
+        cases hr
+        refine ⟨Wind.setTimeLeft_wf _ _ _ hw hc hq, hcw, hlen, hpos, ?_⟩
+        intro _
+        simp only [Bool.not_eq_true, Bool.not_eq_false', Consumable.available, decide_eq_true_eq] at hcnd
+        simp only [Integer.setValue, Consumable.getStack]
+        omega
+end HowlingGale
+
+end Simaple.Comp
